@@ -241,10 +241,13 @@ CLAIMS.update({
         design="4/C01"),
     "C10": dict(
         technique="lattice diffusion equation as an integer-linear form in recorded Green-function values (dyadic "
-                  "symmetrised rates), decided by TLC (Check_Rel.tla) on two k-meshes; symmetry, scaling, pole clauses",
+                  "symmetrised rates), decided by TLC (Check_Rel.tla) on two k-meshes; symmetry, scaling, pole clauses; "
+                  "GFObj.tla object machine (SetRates / Eval / SaveLoad / Copy) model-checked and every path replayed",
         text="Equation at every field point with |R|_inf <= 1 for every source/target site pair, Nmax 4 and 6 with "
              "measured tolerances (1e-3 / 2e-4 of the source term), endpoint symmetry, space-group invariance, inverse "
-             "scaling under uniform rate scaling (1e-8), continuum pole within 8% at a quarter of the mesh period (3D).",
+             "scaling under uniform rate scaling (1e-8), continuum pole within 8% at a quarter of the mesh period (3D). "
+             "Object histories (depth 3-4, three inputs incl. one with identical symmetrised rates and one rescaled): "
+             "G, D and the bias correction at every Eval equal those of a fresh calculator given the last input.",
         note=_REL_NOTE + " Space-group operations are taken from crys.G (sound by C18).",
         design="4/C10"),
     "C11": dict(
@@ -284,7 +287,9 @@ CLAIMS.update({
                   "jumpnetwork2lattice, decided by TLC (Check_C21.tla)",
         text="Every species, cutoffs midway between exact shells 1-4, scalar and per-species obstruction radii placed in "
              "gaps between exact distances: no jump beyond cutoff / obstructed / missing, each once, classes are single "
-             "orbits closed under group and reversal, lattice form encodes the same jumps.",
+             "orbits closed under group and reversal, lattice form encodes the same jumps. Also skewed (unimodular, "
+             "noreduce) descriptions of every catalogue world; there the two clauses that quantify over the group are "
+             "judged only when TLC's bounded group enumeration is complete.",
         note=_WORLD_NOTE + " Where the obstruction reading is ambiguous (radius beyond the nearest site-atom distance) "
                            "the network must lie between the most and least obstructive readings.",
         design="4/C21"),
